@@ -8,6 +8,7 @@
                       Engine._add_index_feature/_process_index_feature/_create_and_add_index_feature
                         + components/index/add_index_feature.py          -> index_features
      abstract_plugins/components/feature.py  Feature.__eq__ (ignores initial_requested_data, uuid, link, index) -> feq
+     (state of /repo after fix commit 069fedf: an equal stored feature inherits the request flag)
      abstract_plugins/components/feature_set.py  FeatureSet.get_initial_requested_features -> requested_names
      runtime/data_lifecycle_manager.py  add_to_result_data_collection/get_result_data      -> step_table
    A feature is (group, name, key, flag): [fkey] stands for every other attribute that Feature.__eq__ compares
@@ -25,9 +26,22 @@ Record feature := { fgrp : nat; fname : string; fkey : nat; fflag : bool }.
 Definition feq (a b : feature) : bool :=
   Nat.eqb (fgrp a) (fgrp b) && String.eqb (fname a) (fname b) && Nat.eqb (fkey a) (fkey b).
 
-(* add_feature_to_collection: `if feature not in collection: add; return True` else `return False` *)
+Definition set_requested (f : feature) : feature :=
+  {| fgrp := fgrp f; fname := fname f; fkey := fkey f; fflag := true |}.
+
+(* for stored_feature in feature_collection: if stored_feature == feature: stored.initial_requested_data = True; break *)
+Fixpoint mark_requested (f : feature) (coll : list feature) : list feature :=
+  match coll with
+  | [] => []
+  | h :: t => if feq h f then set_requested h :: t else h :: mark_requested f t
+  end.
+
+(* add_feature_to_collection: `if feature not in collection: add; return True`; otherwise, if the incoming feature is
+   requested, the flag is set on the stored equal feature (fix 069fedf); `return False` *)
 Definition add_feature (coll : list feature) (f : feature) : list feature * bool :=
-  if existsb (feq f) coll then (coll, false) else (coll ++ [f], true).
+  if existsb (feq f) coll
+  then ((if fflag f then mark_requested f coll else coll), false)
+  else (coll ++ [f], true).
 
 Definition insert (coll : list feature) (f : feature) : list feature := fst (add_feature coll f).
 
@@ -113,11 +127,3 @@ Definition step_features (step : feature -> nat) (coll : list feature) (s : nat)
 (* columns returned for step s when the compute framework holds columns [cols s] ([] = the step returns nothing) *)
 Definition step_table (cols : nat -> list string) (step : feature -> nat) (coll : list feature) (s : nat) : list string :=
   select (cols s) (requested_names (step_features step coll s)).
-
-(* known-defect domain: a flagged feature arrives while an equal unflagged one is already stored *)
-Fixpoint flag_lost_from (coll : list feature) (order : list feature) : bool :=
-  match order with
-  | [] => false
-  | g :: t => (fflag g && existsb (fun h => feq h g && negb (fflag h)) coll) || flag_lost_from (insert coll g) t
-  end.
-Definition kf_flag_lost (order : list feature) : bool := flag_lost_from [] order.
